@@ -8,6 +8,11 @@ HOOKS = {
     "add_only": True,
 }
 ENGINES = [
+    {"name": "comm", "path": "/verif/harness/src/comm.rs + src/interpose.rs + /verif/checks/comm.py + /verif/lean/Model/Comm.lean",
+     "serves_properties": ["C01", "C02", "C03", "C04"],
+     "kind_free_text": "real Communicator against virtual pipes / scripted child / virtual clock (poll, read, write, close, "
+                       "clock_gettime interposed at link time); the Lean model Comm.step replays the event log call by call and "
+                       "re-derives every kernel answer"},
     {"name": "life", "path": "/verif/harness/src/life.rs + src/interpose.rs + /verif/checks/life.py + /verif/lean/Model/Life.lean",
      "serves_properties": ["C09", "C10", "C11"],
      "kind_free_text": "real Popen driven by generated operation sequences; waitpid/kill/clock_gettime/clock_nanosleep interposed at "
@@ -85,5 +90,50 @@ CLAIMED["C11"] = {
             "back-off interval, at the deadline and never; sleep arguments, waitpid counts and return times are compared with the "
             "model and checked by direct oracles (not early, bounded lateness, bounded checks).",
     "note": LIFE_NOTE + " Lateness (<= one 100 ms sleep + latencies) is checked by the oracle on virtual time, not proved.",
+}
+COMM_NOTE = COMMON_NOTE + ("OS axioms A1 (POLLOUT means a write of <= 4096 bytes does not block), A2, A3, A6 are clauses of the Lean OS model "
+             "(Comm.answer / Comm.childStep), assumed of the real kernel; the sim-kernel's every answer is re-derived by that model "
+             "during replay; unix implementation only (Windows helper-thread communicator not modelled).")
+CLAIMED["C01"] = {
+    "engine": "comm", "design_ref": "DESIGN.md section 6, C01",
+    "technique": "Lean 4 proof (readiness invariant over all interleavings) + sim-kernel trace conformance with deadlock/spin oracle",
+    "text": "PARTIAL at proof level (stated in Props/C01.lean): proved for every script, input, capacity and interleaving: "
+            "c01_never_blocks_in_io (after a poll the library's write is <= 4096 bytes with >= 4096 free or no reader, its reads have "
+            "data or no writer: it blocks only inside poll, which covers every stream it owns), c01_no_deadlock_in_poll_partial "
+            "(if that poll(-1) finds nothing ready the child is not blocked), c01_no_eof_spin. The decreasing termination measure is "
+            "not yet proved; termination, deadlock and spinning are checked on every run by the harness oracle on the real "
+            "Communicator under the simulated kernel (every blocked call while the child cannot move, 300 calls without progress, "
+            "20 s without a system call).",
+    "note": COMM_NOTE,
+}
+CLAIMED["C02"] = {
+    "engine": "comm", "design_ref": "DESIGN.md section 6, C02",
+    "technique": "Lean 4 proof (data-flow invariant by induction over steps and read() calls) + sim-kernel trace conformance",
+    "text": "c02_exact: in every reachable state of any session (any script, interleaving, short reads/writes, injected errors): child's "
+            "stdout bytes = returned so far ++ collected ++ in the pipe (same for stderr), input = consumed ++ in pipe ++ not yet "
+            "written; c02_result_exact, c02_option_shape, c02_eof_immediate / c02_close_only_when_done (close(stdin) is the very next "
+            "call after the write that takes the last byte, and only then). The real Communicator is replayed call-by-call against "
+            "the model; the harness checks the bytes offered to every write() against the input and every returned vector against "
+            "what the scripted child wrote; text API compared with String::from_utf8_lossy.",
+    "note": COMM_NOTE + " from_utf8_lossy itself is std's (uninterpreted).",
+}
+CLAIMED["C03"] = {
+    "engine": "comm", "design_ref": "DESIGN.md section 6, C03",
+    "technique": "Lean 4 proof (size-limit and end-of-file invariants) + sim-kernel trace conformance",
+    "text": "c03_bound (collected bytes never exceed the limit in any reachable state, any limit sequence), c03_consecutive (with "
+            "c02_exact: pieces are consecutive, non-overlapping, input continues), c03_empty_means_eof (successful all-empty return "
+            "only when stdin is closed and every captured stream's pipe is empty with no writer). Limits {1,2,100,4095,4096,4097,"
+            "8191,8192,...} changed between reads, both streams ready at once, chunks cut inside a read.",
+    "note": COMM_NOTE,
+}
+CLAIMED["C04"] = {
+    "engine": "comm", "design_ref": "DESIGN.md section 6, C04",
+    "technique": "Lean 4 proof (time invariant on a virtual clock) + sim-kernel trace conformance",
+    "text": "c04_truthful (TimedOut only with a limit tl set and >= tl - 1 ms elapsed since the call), c04_no_limit_no_timeout, "
+            "c04_checked_each_round + c04_bounded_overrun (after the first round the deadline is read at every loop head and an "
+            "expired one ends the call there: silent, trickling and flooding children alike), c04_poll_wrapper (clamp to 2^31-1 ms), "
+            "c04_resumable. Two genuine defects of the original code (F4 flood never times out, F10 spurious TimedOut through bare "
+            "POLLERR) were found by this check and repaired by fix: commits; their reverts are caught with concrete replays.",
+    "note": COMM_NOTE + " Real-clock accuracy of the real kernel is outside; Instant + Duration overflow (~2^63 s) not covered.",
 }
 NOT_CLAIMED = {}
